@@ -82,8 +82,17 @@ fn rid_paths(s: &str) -> Value {
     let doc = serde_json::to_string(s).unwrap();
     let smile = conjure_serde::smile::to_vec(&s).unwrap();
     let r = |t: &ResourceIdentifier| {
+        // the value's own components, on whatever path it was built: they must be accepted componentwise and give the value
+        // back, and only the locator may contain a dot
+        let again = ResourceIdentifier::from_components(t.service(), t.instance(), t.type_(), t.locator())
+            .map(|x| x.into_string()).unwrap_or_else(|e| format!("own components rejected: {e}"));
+        let shape = if t.service().contains('.') || t.instance().contains('.') || t.type_().contains('.') {
+            format!("dotted component: {:?}", [t.service(), t.instance(), t.type_(), t.locator()])
+        } else {
+            t.as_str().to_string()
+        };
         vec![t.as_str().to_string(), t.to_string(), t.to_plain(),
-             serde_json::from_str::<String>(&conjure_serde::json::to_string(t).unwrap()).unwrap(), t.clone().into_string()]
+             serde_json::from_str::<String>(&conjure_serde::json::to_string(t).unwrap()).unwrap(), t.clone().into_string(), again, shape]
     };
     let comps = ResourceIdentifier::from_str(s).ok().map(|t| {
         json!([t.service().as_bytes(), t.instance().as_bytes(), t.type_().as_bytes(), t.locator().as_bytes()])
